@@ -101,21 +101,28 @@ fn run_conn(port: u16, chunks: &[Vec<u8>], pause_us: u64) -> (Vec<u8>, bool) {
     let mut s = TcpStream::connect(("127.0.0.1", port)).unwrap();
     s.set_nodelay(true).unwrap();
     s.set_read_timeout(Some(Duration::from_millis(3000))).unwrap();
+    // replies are read WHILE writing: when the server closes on a protocol error with client bytes still
+    // unread, the kernel answers with RST and anything the client has not read yet can be discarded
+    let mut rs = s.try_clone().unwrap();
+    let reader = std::thread::spawn(move || {
+        let mut out = Vec::new();
+        let mut buf = [0u8; 4096];
+        loop {
+            match rs.read(&mut buf) {
+                Ok(0) => break,
+                Ok(n) => out.extend_from_slice(&buf[..n]),
+                Err(_) => break,
+            }
+        }
+        out
+    });
     let mut write_failed = false;
     for c in chunks {
         if s.write_all(c).is_err() { write_failed = true; break; }
         if pause_us > 0 { std::thread::sleep(Duration::from_micros(pause_us)); }
     }
     let _ = s.shutdown(std::net::Shutdown::Write);
-    let mut out = Vec::new();
-    let mut buf = [0u8; 4096];
-    loop {
-        match s.read(&mut buf) {
-            Ok(0) => break,
-            Ok(n) => out.extend_from_slice(&buf[..n]),
-            Err(_) => break,
-        }
-    }
+    let out = reader.join().unwrap_or_default();
     (out, write_failed)
 }
 
